@@ -59,6 +59,28 @@ class AdjGen:
             return self.choice(self.leaves)
         t = self.new_leaf()
         names = t[2]
+        if r < 0.2 and names:
+            # colliding simultaneous renamings: swap of two equal-size names, shift a->b, b->fresh/other, in-place permutation index
+            c = self.rng.random()
+            pairs = [(a, b) for a in names for b in names if a < b and NAMES[a] == NAMES[b]]
+            if c < 0.35 and pairs:
+                a, b = self.choice(pairs)
+                self.features.add("renamed-swap")
+                return ("sub", t, ((a, ("var", b, (NAMES[a], ()))), (b, ("var", a, (NAMES[a], ())))))
+            if c < 0.7 and pairs:
+                a, b = self.choice(pairs)
+                if self.rng.random() < 0.5:
+                    a, b = b, a
+                cands = [n for n in NAMES if NAMES[n] == NAMES[a] and n not in names]
+                self.counter += 1
+                new = self.choice(cands + ["z%d" % self.counter])
+                self.features.add("renamed-shift")
+                return ("sub", t, ((a, ("var", b, (NAMES[a], ()))), (b, ("var", new, (NAMES[a], ())))))
+            k = self.choice(list(names))
+            if NAMES[k] >= 2:
+                perm = self.rng.permutation(NAMES[k]).astype(np.int64)
+                self.features.add("indexed-in-place")
+                return ("sub", t, ((k, ("ten", perm, (k,), NAMES[k])),))
         if r < 0.3 and names:
             # renaming onto a fresh or another pool name of equal size (not one the leaf already has)
             k = self.choice(list(names))
@@ -97,6 +119,11 @@ class AdjGen:
             b = self.new_leaf([k] + rest, dict(NAMES, **{k: s2}))
             self.features.add("cat")
             self.counter += 1
+            # the concatenated name is fresh, or a pool name of the total size that other factors share
+            shared = [n for n in NAMES if NAMES[n] == s1 + s2 and n not in rest and n != k]
+            if shared and self.rng.random() < 0.6:
+                self.features.add("cat-shared-name")
+                return ("cat", self.choice(shared), (a, b), k)
             return ("cat", "c%d" % self.counter, (a, b), k)
         return t
 
